@@ -496,7 +496,7 @@ func runC15(rc *RunCtx, i int) {
 	}
 	logf, _ := os.Create(filepath.Join(outDir, "child.log"))
 	cmd.Stdout, cmd.Stderr = logf, logf
-	runErr := runWithTimeout(cmd, 5*time.Minute)
+	runErr := runWithTimeout(cmd, core.Patience)
 	logf.Close()
 	hb, herr := os.ReadFile(filepath.Join(outDir, "history.json"))
 	if traced && (runErr != nil || herr != nil) {
@@ -507,7 +507,7 @@ func runC15(rc *RunCtx, i int) {
 		cmd = exec.Command(self, args...)
 		logf, _ = os.Create(filepath.Join(outDir, "child.log"))
 		cmd.Stdout, cmd.Stderr = logf, logf
-		runErr = runWithTimeout(cmd, 5*time.Minute)
+		runErr = runWithTimeout(cmd, core.Patience)
 		logf.Close()
 		hb, herr = os.ReadFile(filepath.Join(outDir, "history.json"))
 	}
